@@ -305,7 +305,7 @@ def rule_bits(prop, repo):
                     R.check(ok, "%s:bits:%s" % (prop, b.rec["path"]), "%s scans the bits of %s, which is not a canonical conversion of a field element" % (b.rec["path"], show(recv, maxdepth=3)[:100]),
                             loc_of(b, bb), b.rec["path"], sample={"fn": b.rec["path"], "scans": show(recv, maxdepth=2)[:100]})
     # 2. the iterator
-    nb = F.bodies.get("<crate::u256::BitIterator<'a> as core::iter::Iterator>::next")
+    nb = next((b_ for p_, b_ in F.bodies.items() if p_.startswith("<crate::u256::BitIterator") and p_.endswith(" as core::iter::Iterator>::next")), None)      # (whatever the lifetime is called)
     R.instance()
     if nb is None:
         R.fail_closed("%s:bits:next" % prop, "BitIterator::next not found")
